@@ -229,7 +229,7 @@ def main():
             cmds.append("O"); meta.append((tag, "O", 0, 0))
             if replay:
                 rp = json.load(open(replay))
-                cmds.append("%s %d %d" % (rp["op"], rp["off"], rp["arg"])); meta.append((tag, rp["op"], rp["off"], rp["arg"]))
+                cmds.append(rp["op"] if rp["op"].startswith("M ") else "%s %d %d" % (rp["op"], rp["off"], rp["arg"])); meta.append((tag, rp["op"], rp["off"], rp["arg"]))
                 continue
             full = size <= (900 if tier == "quick" else 40000) and not tag.startswith("n-")
             for off in range(size):
@@ -250,6 +250,26 @@ def main():
                 off = rng.randrange(size)
                 v = rng.randrange(256)
                 cmds.append("S %d %d" % (off, v)); meta.append((tag, "S", off, v))
+            # stored data damaged AND the check field overwritten with a value that decoders use as a sentinel or reach by wrap-around
+            # (all ones, zero, the right value +1 / -1): the comparison must still fail
+            blob0 = open(p, "rb").read() if size < 400000 else b""
+            fields = []
+            if tag.startswith("bzip2") or tag == "bzip2data": fields.append((10, 4, "big"))
+            if "gzip" in tag: fields.append((size - 8, 4, "little"))
+            if "zip" in tag and "gzip" not in tag and blob0[:4] == b"PK\x03\x04":
+                fields.append((14, 4, "little")); cd = blob0.rfind(b"PK\x01\x02")
+                if cd > 0: fields.append((cd + 16, 4, "little"))
+            for (fo, fl, order) in fields if blob0 else []:
+                cur = int.from_bytes(blob0[fo:fo + fl], order)
+                for sentinel in (0xffffffff, 0, (cur + 1) & 0xffffffff, (cur - 1) & 0xffffffff, 0x80000000):
+                    for _ in range(10 if tier == "quick" else 120):
+                        off = rng.randrange(size)
+                        if fo <= off < fo + fl: continue
+                        v = rng.choice((blob0[off] ^ (1 << rng.randrange(8)), rng.randrange(256)))
+                        if v == blob0[off]: continue
+                        edits = [(off, v)] + [(fo + j, sentinel.to_bytes(fl, order)[j]) for j in range(fl)]
+                        mcmd = "M " + " ".join("%d %d" % e for e in edits)
+                        cmds.append(mcmd); meta.append((tag, mcmd, off, sentinel))
             for ln in sorted(set([0, 1, 2, size - 1, size - 4, size - 8, size // 2] + [rng.randrange(size) for _ in range(20 if tier == "quick" else 200)])):
                 if 0 <= ln < size:
                     cmds.append("T %d" % ln); meta.append((tag, "T", ln, 0))
